@@ -51,7 +51,12 @@ type VerifC11InSpec struct {
 	// (ServerExitErr: with an error); 0: a healthy server that runs until it is told to stop
 	ServerExitMs  int  `json:"serverExitMs"`
 	ServerExitErr bool `json:"serverExitErr,omitempty"`
-	TimeoutS      int  `json:"timeoutS"`
+	// ServerOrder: "" the server reads its request, then answers | answerFirst: it answers (a fixed
+	// address needs nothing from the request) and only then reads the request | answerFirstSlow: the
+	// same with a pause in between.  Over the synchronous pipes of runInProcess neither side's write
+	// completes before the other side reads.
+	ServerOrder string `json:"serverOrder,omitempty"`
+	TimeoutS    int    `json:"timeoutS"`
 	// Feedback: what a reference server (IsRef) prints on its stderr right after its response,
 	// through the real printer of the reference server: internal.NewPrinter(stderr) and, for a
 	// feedback line (M >= 0), PrefixPrintf(Names[M], Fmt, Args...) — exactly what
@@ -320,11 +325,24 @@ func VerifC11InProc(spec VerifC11InSpec) VerifC11InObs {
 	server := func(ctx context.Context, _ []string, in io.ReadCloser, out, stderr io.WriteCloser) error {
 		defer serverReturned.Store(true)
 		req := &conformancev1.ServerCompatRequest{}
-		if err := internal.ReadDelimitedMessage(in, req, "runner", 10*time.Second, maxServerResponseSize); err != nil {
-			return err
+		readReq := func() error {
+			return internal.ReadDelimitedMessage(in, req, "runner", 10*time.Second, maxServerResponseSize)
+		}
+		if spec.ServerOrder == "" {
+			if err := readReq(); err != nil {
+				return err
+			}
 		}
 		if err := internal.WriteDelimitedMessage(out, &conformancev1.ServerCompatResponse{Host: "127.0.0.1", Port: 12345}); err != nil {
 			return err
+		}
+		if spec.ServerOrder != "" {
+			if spec.ServerOrder == "answerFirstSlow" {
+				time.Sleep(30 * time.Millisecond)
+			}
+			if err := readReq(); err != nil {
+				return err
+			}
 		}
 		if spec.IsRef && len(spec.Feedback) > 0 {
 			printer := internal.NewPrinter(stderr)
